@@ -3,62 +3,10 @@
    directive tables (Gen/Facts_C20.v).  Executable definitions only. *)
 From Coq Require Import List NArith ZArith Bool.
 Import ListNotations.
-Require Import Verif.Lib.Wire Verif.Lib.C20Types Verif.Gen.Facts_C20.
+Require Import Verif.Lib.Wire Verif.Lib.C20Types.
+Require Export Verif.Model.C20_base.
+Require Import Verif.Gen.Facts_C20.
 Require Verif.Model.C04.
-
-(* An introspectable object.  [iid] is object identity; [ifp] stands for the
-   dict content (Introspectable subclasses dict: == compares content only,
-   hash is hash((category_name, discriminator))). *)
-Record intr := mkIntr { icat : text; idisc : text; ifp : text; iid : N }.
-
-(* `y in L` / `L.remove(y)` on a list of introspectables: identity or dict == *)
-Definition cont_eq (a b : intr) : bool := N.eqb (iid a) (iid b) || text_eqb (ifp a) (ifp b).
-(* dict-key equality for `_refs`: equal hash (category, discriminator), then identity or == *)
-Definition key_eq (a b : intr) : bool :=
-  text_eqb (icat a) (icat b) && text_eqb (idisc a) (idisc b) && cont_eq a b.
-
-Definition entry := (text * (intr * N))%type.          (* discriminator -> (object, order) *)
-Record st := mkSt {
-  cats : list (text * list entry);                      (* _categories, insertion ordered *)
-  refs : list (intr * list intr);                       (* _refs *)
-  counter : N }.
-Definition init : st := mkSt [] [] 0.
-
-Inductive err := KeyError | ValueError.
-Inductive res (A : Type) := Ok (a : A) | Err (e : err).
-Arguments Ok {A}. Arguments Err {A}.
-
-(* ---- small association helpers *)
-Fixpoint assoc {B} (k : text) (l : list (text * B)) : option B :=
-  match l with [] => None | (k', v) :: r => if text_eqb k k' then Some v else assoc k r end.
-(* dict[k] = v : replace in place or append *)
-Fixpoint assoc_set {B} (k : text) (v : B) (l : list (text * B)) : list (text * B) :=
-  match l with
-  | [] => [(k, v)]
-  | (k', v') :: r => if text_eqb k k' then (k, v) :: r else (k', v') :: assoc_set k v r
-  end.
-Fixpoint assoc_del {B} (k : text) (l : list (text * B)) : list (text * B) :=
-  match l with [] => [] | (k', v') :: r => if text_eqb k k' then r else (k', v') :: assoc_del k r end.
-
-Fixpoint refs_get (x : intr) (l : list (intr * list intr)) : option (list intr) :=
-  match l with [] => None | (k, v) :: r => if key_eq x k then Some v else refs_get x r end.
-Fixpoint refs_set (x : intr) (v : list intr) (l : list (intr * list intr)) : list (intr * list intr) :=
-  match l with
-  | [] => [(x, v)]
-  | (k, v') :: r => if key_eq x k then (k, v) :: r else (k, v') :: refs_set x v r
-  end.
-Fixpoint refs_del (x : intr) (l : list (intr * list intr)) : list (intr * list intr) :=
-  match l with [] => [] | (k, v) :: r => if key_eq x k then r else (k, v) :: refs_del x r end.
-
-Fixpoint mem_intr (y : intr) (l : list intr) : bool :=
-  match l with [] => false | e :: r => cont_eq y e || mem_intr y r end.
-(* list.remove: first equal element; None = ValueError *)
-Fixpoint remove_first (y : intr) (l : list intr) : option (list intr) :=
-  match l with
-  | [] => None
-  | e :: r => if cont_eq y e then Some r
-              else match remove_first y r with Some r' => Some (e :: r') | None => None end
-  end.
 
 (* ---- Introspector methods *)
 Definition cat_of (s : st) (c : text) : list entry :=
@@ -81,13 +29,6 @@ Definition get (s : st) (c d : text) : st * option intr :=
 Definition lookup (s : st) (c d : text) : option intr :=
   match assoc d (cat_of s c) with Some (i, _) => Some i | None => None end.
 
-Fixpoint insert_by_order (e : intr * N) (l : list (intr * N)) : list (intr * N) :=
-  match l with
-  | [] => [e]
-  | x :: r => if N.leb (snd e) (snd x) then e :: l else x :: insert_by_order e r
-  end.
-Definition sort_by_order (l : list (intr * N)) : list (intr * N) := fold_right insert_by_order [] l.
-
 Definition related (s : st) (i : intr) : res (list intr) :=
   match lookup s (icat i) (idisc i) with
   | None => Err KeyError
@@ -100,6 +41,23 @@ Definition get_category (s : st) (c : text) : option (list (intr * N)) :=
   | None => None
   | Some l => Some (sort_by_order (map snd l))
   end.
+
+(* get_category with the `related` list of every row (what the method really returns); the
+   correspondence run observes only the objects and their order *)
+Fixpoint related_rows (s : st) (l : list (intr * N)) : res (list ((intr * N) * list intr)) :=
+  match l with
+  | [] => Ok []
+  | x :: r => match related s (fst x) with
+              | Err e => Err e
+              | Ok rl => match related_rows s r with Ok t => Ok ((x, rl) :: t) | Err e => Err e end
+              end
+  end.
+Definition get_category_rows (s : st) (c : text) : res (option (list ((intr * N) * list intr))) :=
+  match get_category s c with
+  | None => Ok None
+  | Some l => match related_rows s l with Ok r => Ok (Some r) | Err e => Err e end
+  end.
+Definition categories (s : st) : list text := sorted_texts (map fst (cats s)).
 
 Fixpoint intrs_by_pairs (s : st) (pairs : list (text * text)) : res (list intr) :=
   match pairs with
@@ -168,7 +126,6 @@ Definition remove (s : st) (c d : text) : st * option err :=
   end.
 
 (* Introspectable.register: add, then replay the recorded relations *)
-Inductive relop := Rel (c d : text) | Unrel (c d : text).
 Fixpoint replay (s : st) (i : intr) (rs : list relop) : st * option err :=
   match rs with
   | [] => (s, None)
@@ -209,20 +166,6 @@ Inductive op :=
 Definition put_err (e : err) : val := match e with KeyError => VL [VT [75]%N] | ValueError => VL [VT [86]%N] end.
 Definition put_intrs (l : list intr) : val := VL (map (fun i => vN (iid i)) l).
 
-Fixpoint text_ltb (a b : text) : bool :=
-  match a, b with
-  | [], [] => false
-  | [], _ => true
-  | _, [] => false
-  | x :: a', y :: b' => if N.ltb x y then true else if N.ltb y x then false else text_ltb a' b'
-  end.
-Fixpoint insert_text (t : text) (l : list text) : list text :=
-  match l with
-  | [] => [t]
-  | x :: r => if text_eqb t x then l else if text_ltb t x then t :: l else x :: insert_text t r
-  end.
-Definition sorted_texts (l : list text) : list text := fold_right insert_text [] l.
-
 Definition step (s : st) (o : op) : st * val :=
   match o with
   | OAdd i => (add s i, VL [])
@@ -233,13 +176,40 @@ Definition step (s : st) (o : op) : st * val :=
   | ORemove c d => match remove s c d with (s', None) => (s', VL []) | (s', Some e) => (s', put_err e) end
   | ORelated i => (s, match related s i with Ok l => put_intrs l | Err e => put_err e end)
   | ORegister i rs => match register s i rs with (s', None) => (s', VL []) | (s', Some e) => (s', put_err e) end
-  | OCategories => (s, vtexts (sorted_texts (map fst (cats s))))
+  | OCategories => (s, vtexts (categories s))
   end.
 
 Fixpoint run_ops (s : st) (ops : list op) : list val :=
   match ops with
   | [] => []
   | o :: r => let '(s', v) := step s o in v :: run_ops s' r
+  end.
+
+(* ---- the same operations run by the program REGENERATED from the source (Gen/Facts_C20.v);
+   this is what the correspondence run compares with the real Introspector *)
+Definition put_unit (r : res unit) : val := match r with Ok _ => VL [] | Err e => put_err e end.
+Definition gen_step (s : st) (o : op) : st * val :=
+  match o with
+  | OAdd i => let '(s', r) := gen_add s i in (s', put_unit r)
+  | OGet c d => let '(s', r) := gen_get s c d in
+                (s', match r with Ok v => vopt (fun i => vN (iid i)) v | Err e => put_err e end)
+  | OCategory c => let '(s', r) := gen_get_category s c in
+                   (s', match r with
+                        | Ok v => vopt (fun l => VL (map (fun row => VL [vN (iid (fst (fst row))); vN (snd (fst row))]) l)) v
+                        | Err e => put_err e end)
+  | ORelate ps => let '(s', r) := gen_relate s ps in (s', put_unit r)
+  | OUnrelate ps => let '(s', r) := gen_unrelate s ps in (s', put_unit r)
+  | ORemove c d => let '(s', r) := gen_remove s c d in (s', put_unit r)
+  | ORelated i => let '(s', r) := gen_related s i in
+                  (s', match r with Ok l => put_intrs l | Err e => put_err e end)
+  | ORegister i rs => let '(s', r) := gen_register s i rs in (s', put_unit r)
+  | OCategories => let '(s', r) := gen_categories s in
+                   (s', match r with Ok l => vtexts l | Err e => put_err e end)
+  end.
+Fixpoint gen_run_ops (s : st) (ops : list op) : list val :=
+  match ops with
+  | [] => []
+  | o :: r => let '(s', v) := gen_step s o in v :: gen_run_ops s' r
   end.
 
 (* ---- declarative reading of the relation graph (the property's wording):
@@ -332,12 +302,13 @@ Definition all_entries (s : st) : val :=
                          | Some l => map (fun e => VL [VT c; VT (idisc (fst e)); VT (ifp (fst e))]) l
                          | None => [] end) (sorted_texts (map fst (cats s)))).
 
-(* case = [0; ops]  -> list of per-op results
+(* case = [0; ops]  -> [per-op results of the regenerated program; per-op results of the reference model]
    case = [1]       -> [tables_ok] *)
 Definition run_C20 (v : val) : val :=
   ret_or_bad (
     match v with
-    | VL [VI 0%Z; ops] => olet ops := get_list_of get_op ops in Some (VL (run_ops init ops))
+    | VL [VI 0%Z; ops] => olet ops := get_list_of get_op ops in
+                          Some (VL [VL (gen_run_ops init ops); VL (run_ops init ops)])
     | VL [VI 2%Z; intro; acts; intrs] =>
         olet intro := get_bool intro in olet acts := get_list_of get_action acts in
         olet intrs := get_list_of get_intrs intrs in
